@@ -102,6 +102,7 @@ class TLSConnection(TLSRecordLayer):
         # if and how big is the limit on records peer is willing to accept
         # used only for TLS 1.2 and earlier
         self._peer_record_size_limit = None
+        self._own_record_size_limit = None
         self._pha_supported = False
         self.client_cert_compression_algo = None
         self.server_cert_compression_algo = None
@@ -1272,6 +1273,9 @@ class TLSConnection(TLSRecordLayer):
                         "record_size_limit extension"):
                     yield result
             self._peer_record_size_limit = size_limit_ext.record_size_limit
+            if settings.record_size_limit:
+                self._own_record_size_limit = min(2**14,
+                                                  settings.record_size_limit)
         yield serverHello
 
     @staticmethod
@@ -4021,6 +4025,8 @@ class TLSConnection(TLSRecordLayer):
                     # handling of Finished
                     self._peer_record_size_limit = min(
                         2**14, size_limit_ext.record_size_limit)
+                    self._own_record_size_limit = min(
+                        2**14, settings.record_size_limit)
 
         #Now that the version is known, limit to only the ciphers available to
         #that version and client capabilities.
@@ -5120,11 +5126,11 @@ class TLSConnection(TLSRecordLayer):
         #Switch to pending write state
         self._changeWriteState()
 
+        # RFC 8449, section 4: the limits cover protected records only, so
+        # the peer's limit applies from the moment our write state is switched
+        # (ours applies when the read state is switched, see _getFinished())
         if self._peer_record_size_limit:
             self._send_record_limit = self._peer_record_size_limit
-            # this is TLS 1.2 and earlier method, so the real limit may be
-            # lower that what's in the settings
-            self._recv_record_limit = min(2**14, settings.record_size_limit)
 
         if nextProto is not None:
             nextProtoMsg = NextProtocol().create(nextProto)
@@ -5199,6 +5205,12 @@ class TLSConnection(TLSRecordLayer):
 
         # Switch to pending read state
         self._changeReadState()
+
+        # RFC 8449, section 4: what the peer sent before its ChangeCipherSpec
+        # (e.g. an unprotected NewSessionTicket) is not subject to our
+        # record_size_limit, everything after it is
+        if self._peer_record_size_limit and self._own_record_size_limit:
+            self._recv_record_limit = self._own_record_size_limit
 
         # Server Finish - Are we waiting for a next protocol echo?
         if expect_next_protocol:
